@@ -25,6 +25,8 @@ def t_run_model(chk, ix, rules):
 
 def t_run_hook(chk, ix, rules):
     rules_runner.check_run_hook(chk, ix, set(rules), tier=chk.tier)
+    if "H1" in rules:
+        rules_runner.check_tag_hook_owner_real_context(chk, ix)
 
 
 def t_run_behave(chk, ix):
